@@ -196,7 +196,7 @@ type world struct {
 	hitWhy   map[string]bool   // only during push: reasons of the poisoned keys this request hit
 	ackClass map[akey]string   // explanation of an undiscoverable sample, fixed at the moment it was acknowledged
 	ownFailed map[skey]struct{} // series rows of failed INSERTs of the request being folded in (only during push)
-	splDays  map[skey]struct{} // series rows (sent, INSERT ok or not) whose day is NOT the UTC day of any sample of their own request while day+1 is
+	shiftSeen bool // some request sent a series row for a day on which it has no sample while it has one on the next day (the D9 signature)
 	requests int64
 	inserts  int64
 	handlerNs, quiesceNs int64
@@ -264,7 +264,7 @@ func (w *world) resetHistory() {
 	w.failed = map[skey]struct{}{}
 	w.poisoned = map[uint64]string{}
 	w.ackClass = map[akey]string{}
-	w.splDays = map[skey]struct{}{}
+	w.shiftSeen = false
 }
 
 // snap is a restorable copy of the whole world state.  The real objects hold no other state between requests: the
@@ -280,7 +280,7 @@ type snap struct {
 	Inserted []skey
 	Failed   []skey
 	Poison   map[uint64]string
-	SplDays  []skey
+	ShiftSeen bool
 	Shadow   []uint64
 	TsFail   int
 	SplFail  int
@@ -306,9 +306,7 @@ func (w *world) snapshot(hist []string) *snap {
 	for k, v := range w.poisoned {
 		s.Poison[k] = v
 	}
-	for k := range w.splDays {
-		s.SplDays = append(s.SplDays, k)
-	}
+	s.ShiftSeen = w.shiftSeen
 	for k := range w.shadow {
 		s.Shadow = append(s.Shadow, k)
 	}
@@ -337,9 +335,7 @@ func (w *world) restore(s *snap) {
 	for k, v := range s.Poison {
 		w.poisoned[k] = v
 	}
-	for _, k := range s.SplDays {
-		w.splDays[k] = struct{}{}
-	}
+	w.shiftSeen = s.ShiftSeen
 	db := w.cache.DB("n1")
 	for _, k := range s.Shadow {
 		db.CheckAndSet(k) // the real cache relearns exactly the keys it held
@@ -452,7 +448,7 @@ func (w *world) push(event string, clock int) int {
 	for _, ins := range log {
 		for _, r := range ins.Series {
 			if !reqDays[skey{r.FP, r.Day}] && reqDays[skey{r.FP, r.Day + 1}] {
-				w.splDays[skey{r.FP, r.Day}] = struct{}{}
+				w.shiftSeen = true
 			}
 		}
 	}
@@ -660,27 +656,22 @@ func (w *world) checkOne(k akey) (class, what string) {
 		bday := uint16(bt.Unix() / 86400)
 		_, off := t.In(time.Local).Zone()
 		ownFailedGood, any := false, false
-		// D9 signature: the series row for this very day was sent (INSERT ok or not) by a request none of whose
-		// samples falls on the row's day while one falls on the next day — i.e. dated one day early — in a zone west of UTC
+		// D9 deviant rule: in a zone west of UTC every series row is dated one day early.  It is only considered when
+		// that has actually been observed in this history (a row sent for a day on which its request has no sample
+		// while it has one on the next day), and it explains the sample only if the sample WOULD be discoverable with
+		// every stored day moved one day later — anything still missing then is a different defect.
 		shifted := false
-		sig := func(r skey) bool {
-			_, early := w.splDays[r]
-			return early && r.Day == bday-1
-		}
 		for r := range w.failed {
 			if r.FP == k.FP && r.Day >= bday {
 				if _, own := w.ownFailed[r]; own {
 					ownFailedGood = true
 				}
 			}
-			if r.FP == k.FP && sig(r) {
-				shifted = true
-			}
 		}
 		for r := range w.inserted {
 			if r.FP == k.FP {
 				any = true
-				if sig(r) {
+				if w.shiftSeen && dayString(r.Day+1) >= bound {
 					shifted = true
 				}
 			}
